@@ -39,6 +39,8 @@ CONSTANTS Prods, Cons, Stoppers,
           Shared,       \* BOOLEAN: producers are pool workers drawing from ONE shared input through
                         \* _ThreadSafeIterator (piter_fn / pmap); FALSE: one input per producer (piter_multiplex)
           SrcN, SrcFail,\* shared input: number of items, failing position (0 = none)
+          PoolSize,     \* worker threads of the executor the producers run on (0 = one per producer): a producer
+                        \* task starts only when a worker is free (piter_multiplex with more inputs than workers)
           Steps,        \* [Cons -> Int] DequeueIterator num_steps for mode "diter" (-1 = until exhausted)
           Fixes         \* subset of {"stop_notify_enqueuers", "stopped_flag", "batch_recheck_done",
                         \*            "batch_keeps_partial_on_error"}:
@@ -71,7 +73,7 @@ NotifyAll(w) == <<<<>>, {w[j] : j \in 1..Len(w)}>>
 Without(w, p) == SelectSeq(w, LAMBDA x : x # p)
 
 Init ==
-  /\ pc = [p \in Procs |-> IF p \in Prods THEN "p_start"
+  /\ pc = [p \in Procs |-> IF p \in Prods THEN (IF PoolSize = 0 THEN "p_start" ELSE "p_wait")
                            ELSE IF p \in Cons THEN (IF Mode[p] = "get" THEN "c_acqD"
                                                     ELSE IF Mode[p] = "diter" /\ Steps[p] = 0 THEN "x1_acqS"
                                                     ELSE "b_acqD")
@@ -102,6 +104,12 @@ UNCH_OBS   == UNCHANGED <<received, ended, cnt, pend>>
 (* Producer: enqueue_from_iterator (773-795), put (701-717),               *)
 (* put_nowait (691-699), _start_enqueue (719-722), _stop_enqueue (724-742) *)
 (***************************************************************************)
+PSlot(p) ==                        \* the executor hands a free worker thread to the queued task
+  /\ pc[p] = "p_wait"
+  /\ Cardinality({r \in Prods : pc[r] \notin {"p_wait", "done"}}) < PoolSize
+  /\ Goto(p, "p_start")
+  /\ UNCH_LOCKS /\ UNCH_WAIT /\ UNCH_STATE /\ UNCHANGED q /\ UNCH_PLOC /\ UNCH_CLOC /\ UNCH_OBS
+
 PStart(p) ==                       \* with S: start += 1; max = max(max, start)
   /\ pc[p] = "p_start" /\ ownS = NoOne
   /\ start' = start + 1
@@ -511,7 +519,7 @@ DJoin(c) ==                        \* thread_pool.shutdown(wait=True): every wor
   /\ UNCH_LOCKS /\ UNCH_WAIT /\ UNCH_STATE /\ UNCHANGED <<q, received, cnt, pend>> /\ UNCH_PLOC /\ UNCH_CLOC
 
 (***************************************************************************)
-ProdStep(p) == \/ PStart(p) \/ PLoop(p) \/ PNext(p) \/ PAcqL(p) \/ PSrc(p) \/ PAcqE(p) \/ PChk(p) \/ PTry(p) \/ PProg(p)
+ProdStep(p) == \/ PSlot(p) \/ PStart(p) \/ PLoop(p) \/ PNext(p) \/ PAcqL(p) \/ PSrc(p) \/ PAcqE(p) \/ PChk(p) \/ PTry(p) \/ PProg(p)
                \/ PNotD(p) \/ PReacqE(p) \/ PFullChk(p) \/ PWake(p) \/ PTimeout(p)
                \/ PStop(p) \/ PStopChk(p) \/ PStopNot(p) \/ PStopReacq(p) \/ PStopNotE(p) \/ PStopReacq2(p)
 ConsStep(c) == \/ CAcqD(c) \/ CAcqS(c) \/ CInner(c) \/ CEDone(c) \/ CEmptyChk(c) \/ CDoneChk(c)
